@@ -8,25 +8,42 @@ import struct
 from leanfmt import cps, lean_list
 
 ID = "C03"
-LEAN_MODULES = ["EzdxfVerif.Props.C03"]
-DRIVER_DEPS = ["EzdxfVerif.Model.Codec", "EzdxfVerif.Model.XTags", "Drivers.Proto"]
+LEAN_MODULES = ["EzdxfVerif.Props.C03", "EzdxfVerif.Props.C03Text"]
+DRIVER_DEPS = ["EzdxfVerif.Model.Codec", "EzdxfVerif.Model.XTags", "EzdxfVerif.Model.AsciiTags", "EzdxfVerif.Model.JsonTags", "Drivers.Proto"]
 RULE = (
     "correspondence: for every group code 0..1071 x boundary values of its class the real BinaryTagWriter.write_tag2 "
     "bytes and the real binary_tags_loader result vs the Lean encTag/decTag (R12 and R2000+ framing, overflow errors "
     "included); DXFTag/DXFBinaryTag.dxfstr and int()/unhexlify vs showCode/showInt/hexlify/parseInt/unhexlify; "
     "tag_compiler point logic on random raw tag streams (malformed included) vs compile; ExtendedTags._setup/__iter__ "
-    "on random structured tag sequences vs setup/iter. non-trivial = not the class default value / a stream with a "
-    "point or a structure marker; distinct by hash. oracle: writer -> matching loader equality on the real code for "
-    "ASCII, binary (both widths) and JSON (compact and verbose), points at sequence start/end, iter(setup(ts)) == ts."
+    "on random structured tag sequences vs setup/iter. Session 3 (text layer): json.dumps of EVERY code point (block "
+    "checksums) and of random strings vs escape; json string/number scanners on arbitrary literals (valid and invalid) vs "
+    "scanStr/scanNumber; JSONTagWriter text (compact+verbose) vs jsonWrite; json.loads document structure and "
+    "json_tag_loader+tag_compiler on written and mutated documents vs parseDoc/jsonLoad; TagWriter text vs render; "
+    "ascii_tags_loader+tag_compiler, internal_tag_compiler, recover bytes_loader+byte_tag_compiler on written, CRLF, "
+    "truncated and mutated texts vs asciiLoad/internalLoad/recoverLoad (typed values, error classes); universal "
+    "newlines, readline, strip, int() vs univNL/readLines/strip/pyIntWs; VertexArray export/from_tags, binary "
+    "chunking vs vaExport/vaFromTags/binChunks; the width the real binary loader decodes with for head variants vs loaderR12. non-trivial = not the class default value / a stream with a point or "
+    "a structure marker / a mutated or escaped text; distinct by hash. oracle: writer -> matching loader equality on the "
+    "real code for ASCII, CRLF file in text mode, internal compiler, recover (LF and CRLF), binary (both widths) and "
+    "JSON (compact and verbose), points at sequence start/end, JSON strings with control characters / non-BMP / lone "
+    "surrogates, non-finite floats, empty binary payload, iter(setup(ts)) == ts, new_app_data, and O6: every public "
+    "writer/loader entry point equals the modelled one (table ENTRY_POINTS, copied into the evidence notes)."
 )
 TRUSTED_BASE = [
-    "float text: repr(float)/float(str) round trip and struct.pack('<d') are CPython assumptions (exercised by the oracle, doubles are opaque bit patterns in the model)",
-    "text codec of string values (encode/decode) is C09's subject; strings are byte lists here",
-    "readline()/line splitting of the ASCII loader is not modelled (tag level model)",
+    "float text: repr(float)/float(str) round trip, that repr(x) is a JSON float token of printable ASCII characters (structure FloatText / JsonFloatTok in Props/C03Text.lean; exercised by X9-X14 and the oracle) and struct.pack('<d') are CPython assumptions; doubles are opaque bit patterns in the model",
+    "text codec of string values (encode/decode) is C09's subject: strings are byte lists in the binary model and code point lists in the text models; the recover model covers ASCII content (decode = identity)",
+    "CPython json.dumps/json.loads, int(), str.strip(), io text layer: modelled (JsonTags.escape/scanStr/scanNumber/parseDoc, pyIntWs, strip, univNL/readLines) and tied by correspondence incl. every code point for the escape table and the isspace set by decide; not proved against CPython's source",
 ]
-ASSUMPTIONS = ["group codes > 65535 and Python objects of the wrong type for a class are outside the quantifier"]
+ASSUMPTIONS = [
+    "group codes > 65535 and Python objects of the wrong type for a class are outside the quantifier",
+    "model subset of json.loads: arrays of [int, string | number | array of numbers] with white space; objects, true/false/null, NaN/Infinity are reported as `none` and never produced by the writer",
+    "int()/float() acceptance beyond what a writer produces (underscores, non-ASCII digits) and the repair paths (ProE int(float(text)), recover_int/recover_float, _search_int on code lines, \\U+XXXX / \\M+ decoding in recover) are reported as `unsupported` by the model and excluded from the generators",
+]
 OPEN = [
-    "JSON line codec is oracle-only",
+    "the float text stays an assumption (FloatText: repr/float round trip, printable ASCII; compact JSON: isFloatLit (repr x), a decidable per-literal check by jsonFloatTok_of_isFloatLit, evaluated for ~3000 reprs per run in X9); repr itself is not modelled",
+    "recover_agrees_on_input / recover_loader_agrees cover ASCII content and the fast paths; the repair paths of byte_tag_compiler (recover_int/recover_float, decoding fixes, \\U+ decoding) and safe_tag_loader's repair filters are C07's subject (correspondence only skips them)",
+    "binary file header: the version/width half of scan_params is modelled and proved (scan_version_agrees, loader_width_agrees, X19); the $DWGCODEPAGE half and the text codec of binary strings are oracle-only (C09)",
+    "non-finite floats in compact JSON (known finding F28)",
 ]
 
 CLS = {"bytes": 0, "int16": 1, "int32": 2, "int64": 3, "double": 4, "binary": 5, "str": 6}
@@ -111,6 +128,8 @@ def regenerate(ctx):
     text += f"def obsWriter : List Nat := {lean_list((str(_probe_writer(c)) for c in range(1072)), 40)}\n"
     text += f"def obsLoader : List Nat := {lean_list((str(_probe_loader(c)) for c in range(1072)), 40)}\n"
     text += f"def obsCompile : List Nat := {lean_list((str(_probe_compile(c)) for c in range(1072)), 40)}\n"
+    # session 3: Python's str.isspace() set (str.strip() in tag_compiler), probed over all of Unicode
+    text += f"def pySpaceL : List Nat := {lean_list((str(c) for c in range(0x110000) if chr(c).isspace()), 16)}\n"
     if T.MAX_GROUP_CODE != 1071:
         raise ValueError("MAX_GROUP_CODE changed")
     text += "\nend EzdxfVerif.Gen.TagTables\n"
@@ -233,8 +252,6 @@ def correspond(ctx):
                 cases.append((f"enc|{int(r12)}|{show_tag(code, cls, v)}", enc, True))
                 if enc.startswith("ok "):
                     data = bytes(int(x) for x in enc[3:].split()) if enc[3:] else b""
-                    if r12 and 255 <= code < 1000:
-                        continue  # known finding F7: not decodable, compared by the oracle
                     cases.append((f"dec|{int(r12)}|{nats(data)}", impl_dec(r12, data), True))
     # truncated / garbage streams for the decoder (error classes)
     for _ in range(ctx.n(300, 3000)):
@@ -370,6 +387,616 @@ def correspond(ctx):
         out = "ok " + ";".join(f"{t.code}:{cps(t.value)}" for t in x)
         cases.append((req, out, sub > 0))
     ctx.correspond("X6 app data in subclasses", "C03", cases, build=DRIVER_DEPS)
+    correspond_text(ctx)
+
+
+# ------------------------------------------------------------------ session 3: text layer, JSON, recover, packed tags
+def _bits(x: float) -> int:
+    return struct.unpack("<Q", struct.pack("<d", x))[0]
+
+
+def typed_tag(t) -> str:
+    """protocol form of a compiled tag of the real code"""
+    from ezdxf.lldxf.types import DXFVertex, DXFBinaryTag
+
+    v = t.value
+    if isinstance(t, DXFVertex):
+        return f"{t.code}:p" + ",".join(str(_bits(x)) for x in v)
+    if isinstance(t, DXFBinaryTag):
+        return f"{t.code}:b{nats(v)}"
+    if isinstance(v, float):
+        return f"{t.code}:d{_bits(v)}"
+    if isinstance(v, bool) or not isinstance(v, (int, str)):
+        return f"{t.code}:?{type(v).__name__}"
+    if isinstance(v, int):
+        return f"{t.code}:i{v}"
+    return f"{t.code}:s{cps(v)}"
+
+
+def ft_table(floats=(), texts=()) -> str:
+    """float text table of the driver: canonical repr first, then the texts float() accepts"""
+    ent, seen = [], set()
+    for x in floats:
+        e = (_bits(x), repr(x))
+        if e not in seen:
+            seen.add(e); ent.append(e)
+    for t in texts:
+        try:
+            x = float(t)
+        except (ValueError, OverflowError):
+            continue
+        e = (_bits(x), t)
+        if e not in seen:
+            seen.add(e); ent.append(e)
+    return ",".join(f"{b}:{cps(t)}" for b, t in ent)
+
+
+def tag_floats(tags):
+    from ezdxf.lldxf.types import DXFVertex
+
+    out = []
+    for t in tags:
+        if isinstance(t, DXFVertex):
+            out += list(t.value)
+        elif isinstance(t.value, float):
+            out.append(t.value)
+    return out
+
+
+JSTR_POOL = ['"', "\\", "/", "\b", "\f", "\n", "\r", "\t", "\x00", "\x1f", " ", "~", "\x7f", "\x80", "é", "€", "\u2028",
+             "\ud7ff", "\ud800", "\udbff", "\udc00", "\udc80", "\udfff", "\ue000", "\uffff", "\U00010000", "\U0001F600", "\U0010FFFF", "a", "0"]
+
+
+def gen_str(rng, n=None):
+    n = rng.randrange(0, 7) if n is None else n
+    return "".join(rng.choice(JSTR_POOL) if rng.random() < 0.8 else chr(rng.choice([rng.randrange(0, 0x300), rng.randrange(0xD780, 0xE080), rng.randrange(0x10000, 0x110000)])) for _ in range(n))
+
+
+def gen_typed_tags(rng, n=None, strs=None, with_points=True, end_point=None):
+    """a well-typed tag list: every value has the type its group code prescribes; 2D points are never followed by their z code"""
+    from ezdxf.lldxf.types import DXFTag, DXFVertex, DXFBinaryTag
+    from ezdxf.lldxf import types as T
+
+    n = rng.randrange(0, 7) if n is None else n
+    out = []
+    pts = sorted(T.POINT_CODES)
+    for i in range(n):
+        r = rng.random()
+        last2d = out and isinstance(out[-1], DXFVertex) and len(out[-1].value) == 2
+        if with_points and r < 0.3:
+            c = rng.choice(pts)
+            t = DXFVertex(c, [rng.choice(FLOATS) for _ in range(rng.choice([2, 3]))])
+        elif r < 0.45:
+            c = rng.choice([70, 90, 160, 290, 1070, 1071, 62, 280, 420])
+            t = DXFTag(c, rng.choice(INTVALS[cls_of(c)][:5]) if cls_of(c) != "bytes" else rng.choice([0, 1, 255]))
+        elif r < 0.6:
+            c = rng.choice([40, 50, 140, 1040, 460, 48, 230, 30, 31])
+            t = DXFTag(c, rng.choice(FLOATS))
+        elif r < 0.7:
+            t = DXFBinaryTag(rng.choice([310, 311, 1004]), bytes(rng.randrange(256) for _ in range(rng.choice([0, 1, 5, 130]))))
+        else:
+            c = rng.choice([1, 2, 3, 5, 8, 100, 102, 330, 1000, 1001, 0, 0, 999 if rng.random() < 0.1 else 7])
+            sv = (strs or gen_str)(rng)
+            if c == 0:
+                sv = rng.choice(["LINE", "X", " X", "X\x1f", "\u3000Y\x85", "EOF" if rng.random() < 0.15 else "SECTION", sv])
+            t = DXFTag(c, sv)
+        if last2d and t.code == out[-1].code + 20:
+            continue
+        out.append(t)
+    return out
+
+
+def json_text(tags, compact, eof=True):
+    from ezdxf.lldxf.tagwriter import JSONTagWriter
+
+    s = io.StringIO()
+    w = JSONTagWriter(s, compact=compact)
+    for t in tags:
+        w.write_tag(t)
+    if eof:
+        w.write_tag2(0, "EOF")
+    return s.getvalue()
+
+
+def json_load_impl(text):
+    from ezdxf.lldxf.tagger import tag_compiler, json_tag_loader
+    from ezdxf.lldxf.const import DXFStructureError
+
+    try:
+        data = json.loads(text)
+    except json.JSONDecodeError:
+        return "err decode"
+    except RecursionError:
+        return None
+    try:
+        return "ok " + ";".join(typed_tag(t) for t in tag_compiler(json_tag_loader(data)))
+    except DXFStructureError:
+        return "err structure"
+    except (TypeError, ValueError, AttributeError, OverflowError):
+        return "err unsupported"
+
+
+def in_json_subset(data) -> bool:
+    if not isinstance(data, list):
+        return False
+    for p in data:
+        if not (isinstance(p, list) and len(p) == 2):
+            return False
+        c, v = p
+        if isinstance(c, bool) or not isinstance(c, (int, float)):
+            return False
+        if isinstance(v, list):
+            if any(isinstance(x, bool) or not isinstance(x, (int, float)) for x in v):
+                return False
+        elif isinstance(v, bool) or not isinstance(v, (int, float, str)):
+            return False
+    return True
+
+
+def json_data_modelled(data) -> bool:
+    """value types the model of tag_compiler covers (the others are reported as `unsupported` by the model)"""
+    from ezdxf.lldxf import types as T
+
+    for c, v in data:
+        if not isinstance(c, int):
+            return True  # rejected before any value is looked at
+        if c < 0:
+            return False
+        if isinstance(v, list):
+            if c not in T.POINT_CODES or len(v) > 3:
+                return False
+            continue
+        cl = cls_of(c)
+        if c in T.POINT_CODES or cl == "double":
+            continue
+        if cl == "binary":
+            if not isinstance(v, str):
+                return False
+        elif cl in INTVALS:
+            if isinstance(v, float):
+                return False
+            if isinstance(v, str):
+                try:
+                    int(v)
+                except ValueError:
+                    try:
+                        float(v)
+                        return False  # ProE path int(float(text))
+                    except ValueError:
+                        pass
+        elif isinstance(v, float) or (c == 0 and not isinstance(v, str)):
+            return False
+    return True
+
+
+def json_texts(data):
+    """all texts float() may be applied to while compiling"""
+    out = []
+    for c, v in data:
+        for x in (v if isinstance(v, list) else [v]):
+            if isinstance(x, str):
+                out.append(x)
+            elif isinstance(x, int) and abs(x) < 10**300:
+                out.append(str(x))
+    return out
+
+
+def _jnum(x):
+    return f"i{x}" if isinstance(x, int) else None
+
+
+def ascii_text(tags):
+    from ezdxf.lldxf.tagwriter import TagWriter
+
+    s = io.StringIO()
+    w = TagWriter(s)
+    for t in tags:
+        w.write_tag(t)
+    return s.getvalue()
+
+
+def ascii_load_impl(text):
+    from ezdxf.lldxf.tagger import tag_compiler, ascii_tags_loader
+    from ezdxf.lldxf.const import DXFStructureError
+
+    try:
+        return "ok " + ";".join(typed_tag(t) for t in tag_compiler(ascii_tags_loader(io.StringIO(text, newline="\n"))))
+    except DXFStructureError:
+        return "err structure"
+
+
+def internal_load_impl(text):
+    from ezdxf.lldxf.tagger import internal_tag_compiler
+
+    try:
+        return "ok " + ";".join(typed_tag(t) for t in internal_tag_compiler(text))
+    except (ValueError, IndexError):
+        return "err value"
+
+
+def recover_load_impl(text):
+    from ezdxf.recover import bytes_loader, byte_tag_compiler
+    from ezdxf.lldxf.const import DXFStructureError
+
+    msgs = []
+    try:
+        r = "ok " + ";".join(typed_tag(t) for t in byte_tag_compiler(bytes_loader(io.BytesIO(text.encode("ascii"))), messages=msgs))
+    except DXFStructureError:
+        r = "err structure"
+    if msgs:
+        raise ValueError("recovery path")  # recover_int / recover_float / decoding fixes: outside the model
+    return r
+
+
+def line_texts(text):
+    ws = " \t\n\r\x0b\x0c\x85\xa0\u1680\u2000\u2001\u2002\u2003\u2004\u2005\u2006\u2007\u2008\u2009\u200a\u2028\u2029\u202f\u205f\u3000"
+    return [ln.strip(ws) for ln in text.split("\n")]
+
+
+def correspond_text(ctx):
+    import re
+    from ezdxf.lldxf.types import DXFTag, DXFVertex, DXFBinaryTag
+
+    import logging
+
+    rng = ctx.rng("c03-text")
+    logging.getLogger("ezdxf").setLevel(logging.ERROR)  # recover_int/recover_float log every repair
+    # --- X7: json.dumps string escaping: every code point (checksums per block of 4096) + random strings
+    cases = []
+
+    def chk(lo, hi):
+        acc = 7
+        for c in range(lo, hi):
+            for ch in json.dumps(chr(c))[1:-1]:
+                acc = (acc * 131 + ord(ch) + 1) % 1000000007
+        return str(acc)
+
+    blocks = list(range(0, 0x110000, 4096))
+    if ctx.quick:  # BMP + first astral plane exhaustively, the other planes sampled
+        blocks = [b for b in blocks if b < 0x20000] + rng.sample([b for b in blocks if b >= 0x20000], 24)
+    for lo in blocks:
+        cases.append((f"jescrange|{lo}|{lo + 4096}", chk(lo, lo + 4096), True))
+    for _ in range(ctx.n(1500, 15000)):
+        sv = gen_str(rng, rng.randrange(0, 9))
+        cases.append((f"jesc|{cps(sv)}", cps(json.dumps(sv)), bool(sv)))
+        cases.append((f"jmerge|{cps(sv)}", cps(json.loads(json.dumps(sv))), bool(sv)))
+    ctx.correspond("X7 json string escape", "C03", cases, build=DRIVER_DEPS)
+
+    # --- X8: json.loads string scanner on arbitrary literal bodies (valid and invalid)
+    from json.decoder import scanstring
+
+    cases = []
+    pieces = ['\\"', "\\\\", "\\/", "\\b", "\\f", "\\n", "\\r", "\\t", "\\x", "\\u", "\\", "a", " ", "\x7f", "é", "\n", "\x1f", "\ud800", "\udc00", "\U0001F600",
+              "\\ud83d", "\\ude00", "\\uD83D", "\\uDE00", "\\udbff", "\\udc00", "\\ud800", "\\udfff", "\\u00e9", "\\u0000", "\\u12", "\\u12G4", "\\uffff", "\\u+123", "\\u 123", "/"]
+    for _ in range(ctx.n(4000, 40000)):
+        body = "".join(rng.choice(pieces) for _ in range(rng.randrange(0, 7)))
+        text = body + ('"' if rng.random() < 0.9 else "") + rng.choice(["", "", ",x", '"'])
+        try:
+            v, end = scanstring(text, 0)
+            r = f"ok {cps(v)}|{len(text) - end}"
+        except json.JSONDecodeError:
+            r = "none"
+        cases.append((f"jstr|{cps(text)}", r, "\\" in body))
+    ctx.correspond("X8 json string scanner", "C03", cases, build=DRIVER_DEPS)
+
+    # --- X9: json number scanner
+    cases = []
+    dec = json.JSONDecoder()
+    toks = [repr(x) for x in FLOATS] + [str(v) for v in sum(INTVALS.values(), [])] + ["0", "-0", "00", "01", "-", "-a", "1.", "1.e5", ".5", "1e", "1e+", "1E5", "1e-05", "0.0e0", "-0.0", "10.50", "1.5.5", "1ee5", "123abc", "9" * 30, "1e400"]
+    for _ in range(ctx.n(1500, 15000)):
+        toks.append("".join(rng.choice("0123456789012345-+.eE") for _ in range(rng.randrange(1, 8))))
+    for t in toks:
+        text = t + rng.choice(["", ",", "]", " ", ", 1"])
+        if text[:1] not in "-0123456789" or text.startswith("-I") or text.startswith("-N"):
+            continue
+        try:
+            obj, end = dec.raw_decode(text)
+            r = (f"ok i{obj}" if isinstance(obj, int) else f"ok f{cps(text[:end])}") + f"|{len(text) - end}"
+        except json.JSONDecodeError:
+            r = "none"
+        cases.append((f"jnum|{cps(text)}", r, True))
+    # the float-text assumption of the compact format as a per-literal check: repr(x) of every finite double is, as a
+    # whole, one JSON number token that json.loads reads as a float (Lean: isFloatLit, jsonFloatTok_of_isFloatLit)
+    lits = [repr(x) for x in FLOATS] + ["inf", "-inf", "nan", "12", "-0", "1e5", "1.", ".5", "1.5x", "0x10", "1_0.0", "+1.0", " 1.0"]
+    for _ in range(ctx.n(1500, 15000)):
+        x = struct.unpack("<d", struct.pack("<Q", rng.getrandbits(64)))[0]
+        lits.append(repr(x))
+        lits.append(repr(rng.choice([rng.uniform(-1, 1), rng.uniform(-1e6, 1e6), float(rng.randrange(-10**6, 10**6)), rng.random() * 10.0 ** rng.randrange(-30, 30)])))
+    for t in lits:
+        try:
+            v = json.loads(t)
+            r = "1" if isinstance(v, float) and t[:1] not in "NI" and not t.startswith("-I") and t == t.strip() else "0"
+        except json.JSONDecodeError:
+            r = "0"
+        cases.append((f"isfloatlit|{cps(t)}", r, True))
+    ctx.correspond("X9 json number scanner", "C03", cases, build=DRIVER_DEPS)
+
+    # --- X10/X11/X12: JSONTagWriter text, json.loads document structure, json_tag_loader + tag_compiler
+    wcases, dcases, lcases = [], [], []
+
+    def show_num(x):
+        return f"i{x}" if isinstance(x, int) else None
+
+    def doc_struct(text):
+        """json.loads result in the driver's notation; float tokens are re-scanned from the text"""
+        try:
+            data = json.loads(text)
+        except json.JSONDecodeError:
+            return "none"
+        except RecursionError:
+            return None
+        if not in_json_subset(data):
+            return None
+        # floats: token text is needed; use parse_float hook to keep the token
+        data = json.loads(text, parse_float=lambda t: ("f", t))
+
+        def num(x):
+            return f"i{x}" if isinstance(x, int) else "f" + cps(x[1])
+
+        out = []
+        for c, v in data:
+            if isinstance(v, str):
+                sv = "s" + cps(v)
+            elif isinstance(v, list):
+                sv = "l" + ",".join(num(x) for x in v)
+            else:
+                sv = num(v)
+            out.append(num(c) + "=" + sv)
+        return "ok " + ";".join(out)
+
+    def mutate(text):
+        k = rng.randrange(len(text) + 1)
+        op = rng.random()
+        if op < 0.3 and text:
+            return text[:k] + text[k + 1:]
+        if op < 0.6:
+            return text[:k] + rng.choice([" ", "\n", "\t", "\r", ",", "]", "[", '"', "1", "\\", "-", ".", "e", "x"]) + text[k:]
+        if op < 0.8:
+            return text.replace(",\n", rng.choice([" ,\r\n ", ",", "\t,\t"])).replace(", ", rng.choice([",", " , ", ",\n"]))
+        return text[:k]
+
+    for i in range(ctx.n(1500, 15000)):
+        tags = gen_typed_tags(rng)
+        req_tags = ";".join(typed_tag(t) for t in tags)
+        for compact in (True, False):
+            text = json_text(tags, compact)
+            ft = ft_table(tag_floats(tags))
+            wcases.append((f"jwrite|{int(compact)}|{ft}|{req_tags}", cps(text), bool(tags)))
+            for variant in ([text] + [mutate(text) for _ in range(2)]):
+                ds = doc_struct(variant)
+                if ds is not None:
+                    dcases.append((f"jdoc|{cps(variant)}", ds, variant != text))
+                r = json_load_impl(variant)
+                if r is None or (ds is None):
+                    continue
+                extra = []
+                if ds != "none":
+                    data = json.loads(variant)
+                    if not json_data_modelled(data):
+                        continue
+                    extra = json_texts(data)
+                ft2 = ft_table(tag_floats(tags), re.findall(r"-?[0-9][0-9.eE+-]*", variant) + extra)
+                lcases.append((f"jload|{ft2}|{cps(variant)}", r, True))
+    # documents that do not come from the writer: EOF pair in the middle (the loader stops there), comments, white space
+    # variants, ints where floats are expected
+    for i in range(ctx.n(600, 6000)):
+        tags = gen_typed_tags(rng, strs=lambda r_: gen_str(r_, r_.randrange(0, 4)))
+        pairs = []
+        for t in tags:
+            if isinstance(t, DXFVertex):
+                if rng.random() < 0.5:
+                    pairs.append([t.code, [rng.choice([x, int(x)]) if x == int(x) and abs(x) < 1e15 else x for x in t.value]])
+                else:
+                    pairs += [[t.code + 10 * k, x] for k, x in enumerate(t.value)]
+            elif isinstance(t, DXFBinaryTag):
+                pairs.append([t.code, t.tostring()])
+            else:
+                pairs.append([t.code, t.value if rng.random() < 0.7 or not isinstance(t.value, (int, float)) else str(t.value)])
+        if rng.random() < 0.5:
+            pairs.insert(rng.randrange(len(pairs) + 1), [0, "EOF"])
+        if rng.random() < 0.3:
+            pairs.insert(rng.randrange(len(pairs) + 1), [999, "comment"])
+        pairs.append([0, "EOF"])
+        text = json.dumps(pairs, indent=rng.choice([None, 0, 1]), separators=rng.choice([(",", ":"), (", ", ": "), (" ,\n", ":")]))
+        ds = doc_struct(text)
+        r = json_load_impl(text)
+        if ds is None or r is None or not json_data_modelled(json.loads(text)):
+            continue
+        dcases.append((f"jdoc|{cps(text)}", ds, True))
+        ft2 = ft_table(tag_floats(tags), re.findall(r"-?[0-9][0-9.eE+-]*", text) + json_texts(json.loads(text)))
+        lcases.append((f"jload|{ft2}|{cps(text)}", r, True))
+    ctx.correspond("X10 JSONTagWriter text", "C03", wcases, build=DRIVER_DEPS)
+    ctx.correspond("X11 json.loads document", "C03", dcases, build=DRIVER_DEPS)
+    ctx.correspond("X12 json_tag_loader+tag_compiler", "C03", lcases, build=DRIVER_DEPS)
+
+    # --- X13: ASCII writer text, ascii_tags_loader+tag_compiler, recover bytes_loader+byte_tag_compiler
+    rcases, acases, bcases, icases = [], [], [], []
+
+    def ascii_str(rng_):
+        return "".join(rng_.choice(["a", "B", " ", "\t", "7", "é", "\r", "\x0c", "\x1f", "\u2028", "\\U+00E4", "{", "%", "\x85", "\xa0"]) for _ in range(rng_.randrange(0, 5)))
+
+    def plain_str(rng_):
+        return "".join(rng_.choice(["a", "B", " ", "\t", "7", "\r", "\x0c", "\x1f", "{", "%", "\\U+00E4" if rng_.random() < 0.1 else "u"]) for _ in range(rng_.randrange(0, 5)))
+
+    def amutate(text):
+        op = rng.random()
+        k = rng.randrange(len(text) + 1)
+        if op < 0.25:
+            return text.replace("\n", "\r\n")
+        if op < 0.4:
+            return text[:k]
+        if op < 0.6:
+            return text[:k] + rng.choice(["\n", " ", "x", "\r", "999\ncomment\n", "  0\nEOF\n", "-", "1"]) + text[k:]
+        if op < 0.7:
+            return text.rstrip("\n")
+        return text
+
+    for i in range(ctx.n(2500, 25000)):
+        ascii_only = rng.random() < 0.5
+        tags = gen_typed_tags(rng, strs=plain_str if ascii_only else ascii_str)
+        text = ascii_text(tags)
+        ft = ft_table(tag_floats(tags))
+        rcases.append((f"arender|{ft}|" + ";".join(typed_tag(t) for t in tags), cps(text), bool(tags)))
+        for variant in dict.fromkeys([text, amutate(text), amutate(text)]):  # deterministic order
+            code_lines = variant.split("\n")[0::2]
+            if variant.endswith("\n") and len(variant.split("\n")) % 2 == 1:
+                code_lines = code_lines[:-1]
+
+            def _int(t):
+                try:
+                    return int(t)
+                except ValueError:
+                    return None
+
+            if any((_int(c) or 0) < 0 for c in code_lines):
+                continue  # negative group codes are outside the model
+            val_lines = variant.split("\n")[1::2]
+            proe = False
+            for c, v in zip(code_lines, val_lines):
+                ci = _int(c)
+                if ci is not None and 0 <= ci <= 1071 and cls_of(ci) in INTVALS and _int(v) is None:
+                    try:
+                        float(v)
+                        proe = True  # ProE path int(float(text)): truncation is outside the model
+                    except ValueError:
+                        pass
+            if proe:
+                continue
+            ft2 = ft_table(tag_floats(tags), line_texts(variant))
+            acases.append((f"aload|{ft2}|{cps(variant)}", ascii_load_impl(variant), variant != text))
+            icases.append((f"iload|{ft2}|{cps(variant)}", internal_load_impl(variant), variant != text))
+            if all(ord(ch) < 128 for ch in variant) and "\\U+" not in variant and "\\M+" not in variant \
+                    and all(_int(c) is not None or not any(ch.isdigit() for ch in c) for c in code_lines):
+                try:
+                    r = recover_load_impl(variant)
+                except Exception as e:  # noqa: recover paths outside the model
+                    continue
+                bcases.append((f"rload|{ft2}|{cps(variant)}", r, variant != text))
+    ctx.correspond("X13 TagWriter text", "C03", rcases, build=DRIVER_DEPS)
+    ctx.correspond("X14 ascii_tags_loader+tag_compiler", "C03", acases, build=DRIVER_DEPS)
+    ctx.correspond("X15 recover bytes_loader+byte_tag_compiler", "C03", bcases, build=DRIVER_DEPS)
+    ctx.correspond("X18 internal_tag_compiler typed", "C03", icases, build=DRIVER_DEPS)
+
+    # --- X16: line framing helpers: universal newlines, readline, strip, int()
+    cases = []
+    for i in range(ctx.n(1500, 15000)):
+        t = "".join(rng.choice(["a", "\r", "\n", "\r\n", " ", "1", "\x0c", "\u2028"]) for _ in range(rng.randrange(0, 9)))
+        got = io.TextIOWrapper(io.BytesIO(t.encode("utf8")), encoding="utf8", newline=None).read()
+        cases.append((f"univnl|{cps(t)}", cps(got), "\r" in t))
+        cases.append((f"crlf|{cps(t)}", cps(t.replace("\n", "\r\n")), "\n" in t))
+        st = io.StringIO(t, newline="\n")
+        lines = []
+        while True:
+            ln = st.readline()
+            if not ln:
+                break
+            lines.append(ln)
+        cases.append((f"readlines|{cps(t)}", ";".join(cps(ln) for ln in lines), "\n" in t))
+        u = "".join(rng.choice(["a", " ", "\t", "\n", "\x1c", "\x1f", "\x85", "\xa0", "\u2003", "\u3000", "\u200b", "\ufeff", "Z"]) for _ in range(rng.randrange(0, 7)))
+        cases.append((f"strip|{cps(u)}", cps(u.strip()), True))
+        if all(ord(ch) < 128 for ch in u):
+            cases.append((f"stripb|{cps(u)}", cps(u.encode().strip().upper().decode()), True))
+        iv = rng.choice(["", " ", "\t", "\u3000", "\x1f"]) + rng.choice(["", "-", "+"]) + "".join(rng.choice("0123456789") for _ in range(rng.randrange(0, 4))) + rng.choice(["", "\n", "\r\n", " \n", "\x85"])
+        try:
+            r = "ok " + str(int(iv))
+        except ValueError:
+            r = "none"
+        cases.append((f"pyint|{cps(iv)}", r, True))
+    ctx.correspond("X16 line framing", "C03", cases, build=DRIVER_DEPS)
+
+    # --- X17: packedtags.VertexArray export / from_tags, binary chunking of _write_binary_chunks
+    from ezdxf.lldxf.packedtags import VertexArray
+    from ezdxf.lldxf.tagwriter import TagCollector, BinaryTagWriter
+    from ezdxf.lldxf.tags import Tags
+
+    cases = []
+    for i in range(ctx.n(600, 6000)):
+        size = rng.choice([2, 3])
+        code = rng.choice([10, 11, 13, 210, 1010])
+        pts = [[float(rng.randrange(-5, 50)) for _ in range(size)] for _ in range(rng.randrange(0, 5))]
+
+        class VA(VertexArray):
+            VERTEX_SIZE = size
+
+        va = VA(pts)
+        col = TagCollector()
+        va.export_dxf(col, code)
+        cases.append((f"vaexport|{code}|" + ";".join(nats(int(x) + 100 for x in p) for p in pts),
+                      ";".join(f"{t.code}:{int(t.value) + 100}" for t in col.tags), bool(pts)))
+        # from_tags on a mixed compiled tag list
+        mixed = gen_typed_tags(rng, n=rng.randrange(0, 4), strs=lambda r_: "x")
+        tags = []
+        for p in pts:
+            tags.append(DXFVertex(code, p if rng.random() < 0.9 else p[:2] + [1.0] * (5 - size - 2)))
+            if mixed and rng.random() < 0.5:
+                tags.append(mixed.pop())
+        try:
+            got = VA.from_tags(Tags(tags), code)
+            r = "ok " + ";".join(",".join(str(_bits(float(x))) for x in v) for v in got.values)
+        except (TypeError, ValueError):
+            r = "err"
+        cases.append((f"vafrom|{size}|{code}|" + ";".join(typed_tag(t) for t in tags), r, bool(pts)))
+    from ezdxf.lldxf.packedtags import TagList
+
+    for i in range(ctx.n(400, 4000)):
+        code = rng.choice([70, 90, 93, 330])
+        flat = [(rng.choice([code, code, code - 1, code + 1, 1, 1071]), rng.randrange(0, 50)) for _ in range(rng.randrange(0, 8))]
+        got = TagList.from_tags(Tags(DXFTag(c, v) for c, v in flat), code).values
+        cases.append((f"tlfrom|{code}|" + ";".join(f"{c}:{v}" for c, v in flat), nats(got), any(c == code for c, _ in flat)))
+    for n in [0, 1, 2, 126, 127, 128, 253, 254, 255, 381, 382] + [rng.randrange(0, 700) for _ in range(ctx.n(20, 200))]:
+        d = bytes(rng.randrange(256) for _ in range(n))
+        sio = io.BytesIO()
+        BinaryTagWriter(sio, dxfversion="AC1021").write_tag2(310, d)
+        raw = sio.getvalue()
+        chunks_, k = [], 0
+        while k < len(raw):
+            ln = raw[k + 2]
+            chunks_.append(raw[k + 3:k + 3 + ln])
+            k += 3 + ln
+        cases.append((f"bchunks|{nats(d)}", ";".join(nats(c) for c in chunks_) + f"#{len(chunks_)}", True))
+    ctx.correspond("X17 packed tags, binary chunks", "C03", cases, build=DRIVER_DEPS)
+
+    # --- X20: tags.group_tags
+    from ezdxf.lldxf.tags import group_tags
+
+    cases = []
+    for i in range(ctx.n(800, 8000)):
+        k = rng.choice([0, 0, 100, 1001])
+        codes = [rng.choice([k, k, 1, 2, 10, 100, 0, 1001]) for _ in range(rng.randrange(0, 10))]
+        groups = group_tags([DXFTag(c, j) for j, c in enumerate(codes)], k)
+        r = ";".join(" ".join(f"{t.code}:{t.value}" for t in g) for g in groups)
+        cases.append((f"group|{k}|{nats(codes)}", r, k in codes))
+    ctx.correspond("X20 group_tags", "C03", cases, build=DRIVER_DEPS)
+
+    # --- X19: binary_tags_loader.scan_params: which group-code width the loader decodes with
+    from ezdxf.lldxf.tagger import binary_tags_loader
+
+    def frame(w, code, sv):
+        head = bytes([code]) if w == 1 else code.to_bytes(2, "little")
+        return head + sv.encode("ascii") + b"\x00"
+
+    cases = []
+    versions = ["AC1009", "AC1006", "AC1012", "AC1014", "AC1015", "AC1018", "AC1021", "AC1024", "AC1027", "AC1032", "AB9999", "AC100A", "AD0000", "AC1008"]
+    for i in range(ctx.n(400, 4000)):
+        w = rng.choice([1, 2])
+        ver = rng.choice(versions)
+        body = frame(w, 0, "SECTION") + frame(w, 2, "HEADER")
+        kind = rng.random()
+        if kind < 0.25:  # other variables first: $ACADVER may lie beyond the 1024 byte window
+            for _ in range(rng.randrange(0, 40)):
+                body += frame(w, 9, "$PAD" + "X" * rng.randrange(0, 30)) + frame(w, 1, "v" * rng.randrange(0, 20))
+        if kind < 0.9:
+            body += frame(w, 9, "$ACADVER") + frame(w, 1, ver)
+        body += frame(w, 9, "$INSBASE") + frame(w, 0, "ENDSEC")
+        data = SIG + body
+        try:
+            t0 = next(binary_tags_loader(data))
+            same_width = (t0.code == 0 and t0.value == "SECTION")
+        except Exception:  # noqa
+            same_width = False
+        loader_r12 = (w == 1) if same_width else (w != 1)
+        cases.append((f"scanr12|{nats(data)}", "1" if loader_r12 else "0", kind < 0.9))
+    ctx.correspond("X19 binary loader width (scan_params)", "C03", cases, build=DRIVER_DEPS)
 
 
 def gen_entity_tags(rng, malformed=False):
@@ -456,7 +1083,7 @@ def oracle(ctx):
             strs = ["1F", "0", "ABCDEF"]
         return strs
 
-    formats = ["ascii", "internal", "bin2000", "bin12", "json", "jsonv"]
+    formats = ["ascii", "internal", "bin2000", "bin12", "json", "jsonv", "crlf", "recover", "recover-crlf"]
 
     def roundtrip(fmt, tags):
         if fmt == "ascii":
@@ -465,6 +1092,25 @@ def oracle(ctx):
             for t in tags:
                 w.write_tag(t)
             return list(tag_compiler(ascii_tags_loader(io.StringIO(s.getvalue(), newline="\n"))))
+        if fmt == "crlf":  # a file with \r\n line ends read in text mode (universal newlines, as ezdxf.readfile does)
+            s = io.StringIO()
+            w = TagWriter(s)
+            for t in tags:
+                w.write_tag(t)
+            data = s.getvalue().replace("\n", "\r\n").encode("utf8", "surrogatepass")
+            stream = io.TextIOWrapper(io.BytesIO(data), encoding="utf8", errors="surrogatepass", newline=None)
+            return list(tag_compiler(ascii_tags_loader(stream)))
+        if fmt in ("recover", "recover-crlf"):  # recover mode: bytes_loader + byte_tag_compiler on the ASCII writer's bytes
+            from ezdxf.recover import bytes_loader, byte_tag_compiler
+
+            s = io.StringIO()
+            w = TagWriter(s)
+            for t in tags:
+                w.write_tag(t)
+            text = s.getvalue()
+            if fmt == "recover-crlf":
+                text = text.replace("\n", "\r\n")
+            return list(byte_tag_compiler(bytes_loader(io.BytesIO(text.encode("utf8"))), encoding="utf8"))
         if fmt == "internal":  # Tags.from_text / write_str path: internal_tag_compiler on the ASCII writer's text
             from ezdxf.lldxf.tagger import internal_tag_compiler
 
@@ -517,17 +1163,52 @@ def oracle(ctx):
                 if not ok:
                     ctx.fail(f"{kind}/{code}/{v!r:.40}", f"{fmt}: tag ({code}, {v!r:.60}) {detail[:200]}",
                              {"op": "roundtrip", "fmt": fmt, "code": code, "value": repr(v)})
-    # empty binary payload (the writer emits no chunk at all in binary DXF)
+    # non-finite floats: every format but compact JSON reads them back (known finding: `[40, inf]` is not JSON)
+    for x in (float("inf"), float("-inf"), float("nan")):
+        for seq in ([DXFTag(0, "X"), DXFTag(40, x), DXFTag(0, "Y")], [DXFTag(0, "X"), DXFVertex(10, (x, 0.0)), DXFTag(0, "Y")]):
+            for fmt in formats:
+                ctx.count("O1 writer->loader", (fmt, seq[1].code, repr(x)), True)
+                try:
+                    back = roundtrip(fmt, seq)
+                    ok = len(back) == 3 and same(back[1], seq[1])
+                    detail = f"read back {back!r}"
+                except Exception as e:  # noqa
+                    ok, detail = False, f"raised {type(e).__name__}: {e}"
+                if not ok:
+                    ctx.fail(f"nonfinite/{fmt}/{seq[1].code}/{x!r}", f"{fmt}: tag ({seq[1].code}, {x!r}) {detail[:200]}",
+                             {"op": "nonfinite", "fmt": fmt, "code": seq[1].code, "value": repr(x)})
+    # JSON strings: control characters, DEL, non-BMP, lone surrogates; an adjacent (high, low) surrogate pair of
+    # two code points is merged by json.loads (model: mergePairs) and is outside the hypothesis of the theorem
+    for i in range(ctx.n(1500, 15000)):
+        sv = gen_str(rng, rng.randrange(0, 8))
+        expect = json.loads(json.dumps(sv))
+        inside = expect == sv
+        code = rng.choice([1, 2, 3, 102, 1000, 1001, 300, 410])
+        for fmt in ("json", "jsonv"):
+            seq = [DXFTag(0, "X"), DXFTag(code, sv), DXFTag(0, "Y")]
+            ctx.count("O5 json strings", (fmt, code, sv), bool(sv))
+            try:
+                back = roundtrip(fmt, seq)
+                ok = len(back) == 3 and back[1].code == code and back[1].value == (sv if inside else expect)
+                detail = f"read back {back!r}"
+            except Exception as e:  # noqa
+                ok, detail = False, f"raised {type(e).__name__}: {e}"
+            if not ok:
+                ctx.fail(f"json-string/{fmt}/{code}/{sv!r:.40}", f"{fmt}: string tag ({code}, {sv!r:.80}) {detail[:200]}",
+                         {"op": "jsonstr", "fmt": fmt, "code": code, "value": [ord(ch) for ch in sv]})
+    # empty binary payload (one chunk of size 0 in binary DXF since the fix of F17; R12 binary frames binary data only
+    # with the extended-data code 1004, see F7)
     for fmt in formats:
-        seq = [DXFTag(0, "X"), DXFBinaryTag(310, b""), DXFTag(0, "Y")]
-        ctx.count("O1 writer->loader", (fmt, 310, "empty"), True)
+        bcode = 1004 if fmt == "bin12" else 310
+        seq = [DXFTag(0, "X"), DXFBinaryTag(bcode, b""), DXFTag(0, "Y")]
+        ctx.count("O1 writer->loader", (fmt, bcode, "empty"), True)
         try:
             back = roundtrip(fmt, seq)
             ok = len(back) == 3 and same(back[1], seq[1])
         except Exception as e:  # noqa
             ok = False
         if not ok:
-            ctx.fail(f"empty-binary/{fmt}", f"{fmt}: empty binary tag (310, b'') is not read back", {"op": "emptybin", "fmt": fmt})
+            ctx.fail(f"empty-binary-tag/{fmt}", f"{fmt}: empty binary tag (310, b'') is not read back", {"op": "emptybin", "fmt": fmt})
     # tag sequences with 2D/3D point runs at start/end
     for i in range(ctx.n(1500, 15000)):
         n = rng.randrange(1, 7)
@@ -541,7 +1222,7 @@ def oracle(ctx):
                 c = rng.choice([1, 40, 70, 0, 8])
                 seq.append(dxftag(c, {1: "txt", 40: 2.5, 70: 3, 0: "E", 8: "L"}[c]))
         # inside the quantifier: a 2D point is not followed by a tag with its z code (none of the singles is)
-        fmt = rng.choice(formats[:2] + formats[3:]) if any(t.code >= 255 for t in seq) else rng.choice(formats)
+        fmt = rng.choice(formats)  # (R12 binary frames every code since the fix of F7)
         ctx.count("O2 point runs", (fmt, tuple((t.code, len(t.value) if isinstance(t, DXFVertex) else 0) for t in seq)), True)
         try:
             back = roundtrip(fmt, seq)
@@ -574,6 +1255,9 @@ def oracle(ctx):
             if not ok:
                 ctx.fail(f"new_app_data/{how}/{'base' if target is None else 'subclass'}", f"new_app_data(subclass_name={target!r}) then {how}: {back}"[:300], {"op": "newapp", "tags": ts, "sub": target})
 
+    oracle_entry_points(ctx, rng)
+    oracle_packed(ctx, rng)
+
     for i in range(ctx.n(3000, 30000)):
         ts = gen_entity_tags(rng, malformed=rng.random() < 0.15)
         ctx.count("O3 xtags", tuple(ts), True)
@@ -584,6 +1268,176 @@ def oracle(ctx):
         back = [(t.code, t.value) for t in x]
         if back != ts:
             ctx.fail(f"xtags/{ts[:6]}", f"ExtendedTags iteration differs: {ts} -> {back}"[:400], {"op": "xtags", "tags": ts})
+
+
+ENTRY_POINTS = {
+    # public loader / writer entry point of lldxf (+ recover)  ->  model function it is tied to, and by what
+    "types.DXFTag.dxfstr / DXFVertex.dxfstr / DXFBinaryTag.dxfstr / strtag": "AsciiTags.renderTag/render (X13 text equality)",
+    "tagwriter.TagWriter.write_tag": "AsciiTags.render (X13)",
+    "tagwriter.TagWriter.write_tag2 / write_vertex / write_tags / write_str": "== write_tag text (O6), hence AsciiTags.render",
+    "tagwriter.BinaryTagWriter.write_tag2": "Codec.encTag (X1 bytes equality, both widths; X17 chunks)",
+    "tagwriter.BinaryTagWriter.write_tag / write_vertex / write_str / write_tags": "== write_tag2 bytes (O6), hence Codec.encAll",
+    "tagwriter.JSONTagWriter.write_tag / write_tag2(EOF)": "JsonTags.jsonWrite (X10 text equality, compact+verbose)",
+    "tagwriter.JSONTagWriter.write_tag2 / write_vertex / write_str / write_tags": "== write_tag text (O6), hence JsonTags.jsonWrite",
+    "tagwriter.TagCollector.write_tag / write_tag2 / write_vertex / write_str; basic_tags_from_text": "== Codec.flatten of the tags (O6)",
+    "tagger.ascii_tags_loader + tag_compiler": "AsciiTags.asciiLoader/tagCompile (X14, X3 point logic, Gen obsCompile typing table)",
+    "tagger.internal_tag_compiler; tags.Tags.from_text; extendedtags.ExtendedTags.from_text; tags.text2tags": "AsciiTags.internalLoad (X18, X5) / == internal_tag_compiler (O6)",
+    "tagger.binary_tags_loader": "Codec.decAll (X1, error classes included; Gen obsLoader); scan_params width: Codec.scanVersion/loaderR12 (X19)",
+    "tagger.json_tag_loader (+ json.loads)": "JsonTags.parseDoc/jsonTagLoader (X8 strings, X9 numbers, X11 documents, X12 typed)",
+    "json.dumps (string escaping used by JSONTagWriter)": "JsonTags.escape (X7: every code point + random strings)",
+    "recover.bytes_loader + byte_tag_compiler": "AsciiTags.recoverLoad (X15); recover.safe_tag_loader == that on well-formed input (O6)",
+    "extendedtags.ExtendedTags(...)/__iter__/new_app_data": "XTags.setup/iter/newAppData (X4, X6)",
+    "packedtags.VertexArray.export_dxf/from_tags; TagList/TagArray.from_tags": "AsciiTags.vaExport/vaFromTags/tlFromTags (X17)",
+    "tags.group_tags": "AsciiTags.groupTags (X20)",
+    "io: text file newline translation, readline": "AsciiTags.univNL/readLines (X16)",
+}
+
+
+def oracle_entry_points(ctx, rng):
+    """O6: every public writer/loader entry point that is not modelled directly produces exactly what the modelled
+    entry point produces (so the theorems about the modelled one carry over)."""
+    from ezdxf.lldxf.tagwriter import TagWriter, BinaryTagWriter, JSONTagWriter, TagCollector, basic_tags_from_text
+    from ezdxf.lldxf.tagger import internal_tag_compiler
+    from ezdxf.lldxf.tags import Tags, text2tags
+    from ezdxf.lldxf.extendedtags import ExtendedTags
+    from ezdxf.lldxf.types import DXFTag, DXFVertex, DXFBinaryTag, strtag
+    from ezdxf.recover import safe_tag_loader, bytes_loader, byte_tag_compiler
+    from ezdxf.lldxf import types as T
+
+    for name, tie in ENTRY_POINTS.items():
+        ctx.note(f"entry point {name}: {tie}")
+
+    def key(t):
+        return typed_tag(t)
+
+    def flat(tags):
+        out = []
+        for t in tags:
+            out += list(t.dxftags()) if isinstance(t, DXFVertex) else [t]
+        return out
+
+    def check(name, a, b, tags):
+        ctx.count("O6 entry points", (name, tuple(key(t) for t in tags)), bool(tags))
+        if a != b:
+            ctx.fail(f"entry/{name}/{[key(t) for t in tags][:4]}", f"{name}: {a!r:.200} != {b!r:.200} for {tags!r:.200}",
+                     {"op": "entry", "name": name, "tags": [key(t) for t in tags]})
+
+    def plain(r_):
+        return "".join(r_.choice(["a", "B", " ", "7", "{", "%", "é", "\u2028", "\x85", "\x1c", '"', "\\"]) for _ in range(r_.randrange(0, 5)))
+
+    for i in range(ctx.n(400, 4000)):
+        tags = [t for t in gen_typed_tags(rng, strs=plain) if not (t.code == 0 and t.value == "EOF") and t.code != 999]
+        # --- ASCII writer
+        ref = ascii_text(tags)
+        s = io.StringIO(); w = TagWriter(s)
+        for t in tags:
+            if isinstance(t, DXFVertex):
+                w.write_vertex(t.code, t.value)
+            elif isinstance(t, DXFBinaryTag):
+                w.write_tag2(t.code, t.tostring())
+            else:
+                w.write_tag2(t.code, t.value)
+        check("TagWriter.write_tag2/write_vertex", s.getvalue(), ref, tags)
+        s = io.StringIO(); TagWriter(s).write_tags(Tags(tags))
+        check("TagWriter.write_tags", s.getvalue(), ref, tags)
+        s = io.StringIO(); TagWriter(s).write_str(ref)
+        check("TagWriter.write_str", s.getvalue(), ref, tags)
+        check("strtag", "".join(strtag((t.code, t.tostring() if isinstance(t, DXFBinaryTag) else t.value)) for t in flat(tags)), ref, tags)
+        if not tags:
+            continue
+        # --- internal compiler front ends
+        want = [key(t) for t in internal_tag_compiler(ref)]
+        check("Tags.from_text", [key(t) for t in Tags.from_text(ref)], want, tags)
+        check("text2tags", [key(t) for t in text2tags(ref)], want, tags)
+        check("internal_tag_compiler==tags", want, [key(t) for t in tags], tags)
+        check("basic_tags_from_text", [key(t) for t in basic_tags_from_text(ref)], [key(t) for t in flat(Tags.from_text(ref))], tags)
+        # --- collector
+        col = TagCollector()
+        for t in tags:
+            col.write_tag(t)
+        check("TagCollector.write_tag", [key(t) for t in col.tags], [key(t) for t in flat(tags)], tags)
+        col2 = TagCollector(); col2.write_str(ref)
+        check("TagCollector.write_str", [key(t) for t in col2.tags], [key(t) for t in flat(tags)], tags)
+        col3 = TagCollector()
+        for t in tags:
+            if isinstance(t, DXFVertex):
+                col3.write_vertex(t.code, t.value)
+            elif not isinstance(t, DXFBinaryTag):
+                col3.write_tag2(t.code, t.value)
+        check("TagCollector.write_tag2/write_vertex", [key(t) for t in col3.tags], [key(t) for t in flat(tags) if not isinstance(t, DXFBinaryTag)], tags)
+        # --- binary writer (R2000+ width; codes of the list are all framable)
+        def bin_bytes(fn):
+            b = io.BytesIO(); w_ = BinaryTagWriter(b, dxfversion="AC1021", encoding="utf8"); fn(w_); return b.getvalue()
+
+        try:
+            refb = bin_bytes(lambda w_: [w_.write_tag2(t.code, t.value) for t in flat(tags)])
+        except OverflowError:  # an int outside the width of its class: no binary form (ASCII/JSON carry it)
+            refb = None
+        if refb is not None:
+          check("BinaryTagWriter.write_tag", bin_bytes(lambda w_: [w_.write_tag(t) for t in tags]), refb, tags)
+          check("BinaryTagWriter.write_tags", bin_bytes(lambda w_: w_.write_tags(Tags(tags))), refb, tags)
+          check("BinaryTagWriter.write_vertex", bin_bytes(lambda w_: [w_.write_vertex(t.code, t.value) if isinstance(t, DXFVertex) else w_.write_tag(t) for t in tags]), refb, tags)
+        if refb is not None and not any(isinstance(t, (DXFBinaryTag,)) or isinstance(t.value, float) or isinstance(t, DXFVertex) for t in tags):
+            # write_str hands the TEXT of the value to write_tag2: equal bytes for strings and ints
+            check("BinaryTagWriter.write_str", bin_bytes(lambda w_: w_.write_str(ref)), refb, tags)
+        # --- JSON writer
+        for compact in (True, False):
+            refj = json_text(tags, compact, eof=False)
+            s = io.StringIO(); JSONTagWriter(s, compact=compact).write_tags(Tags(tags))
+            check(f"JSONTagWriter.write_tags/{int(compact)}", s.getvalue(), refj, tags)
+            s = io.StringIO(); JSONTagWriter(s, compact=compact).write_str(ref)
+            check(f"JSONTagWriter.write_str/{int(compact)}", s.getvalue(), refj, tags)
+        # --- ExtendedTags.from_text (only for sequences its _setup accepts)
+        if tags[0].code == 0 and all(t.code not in (100, 101, 102, 1001) for t in tags[1:]):
+            check("ExtendedTags.from_text", [key(t) for t in ExtendedTags.from_text(ref)], want, tags)
+        # --- recover front end on well-formed ASCII content
+        if all(ord(ch) < 128 for ch in ref) and "\\" not in ref and all(not (t.code == 0 and t.value != t.value.strip().upper()) for t in tags if isinstance(t.value, str)) \
+                and all(t.code not in (5, 105) and not (320 <= t.code < 370) for t in tags) \
+                and not any(not isinstance(t, DXFVertex) and (t.code - 10 in T.POINT_CODES or t.code - 20 in T.POINT_CODES) for t in tags):
+            # (the repair layer of safe_tag_loader drops orphaned y/z coordinate tags and invalid handles by design: C07)
+            data = (ref + "  0\nEOF\n").encode("ascii")
+            a = [key(t) for t in safe_tag_loader(io.BytesIO(data))]
+            b = [key(t) for t in byte_tag_compiler(bytes_loader(io.BytesIO(data)))]
+            check("recover.safe_tag_loader", a, b, tags)
+
+
+def oracle_packed(ctx, rng):
+    """O7: packedtags containers survive export -> ASCII text -> internal/ASCII compiler -> from_tags"""
+    from ezdxf.lldxf.packedtags import VertexArray, TagArray, TagList
+    from ezdxf.lldxf.tagwriter import TagWriter
+    from ezdxf.lldxf.tags import Tags
+    from ezdxf.lldxf.tagger import ascii_tags_loader, tag_compiler
+
+    for i in range(ctx.n(300, 3000)):
+        size = rng.choice([2, 3])
+        code = rng.choice([10, 11, 12, 13, 210, 1010, 1011])
+
+        class VA(VertexArray):
+            VERTEX_SIZE = size
+
+        pts = [tuple(rng.choice(FLOATS) for _ in range(size)) for _ in range(rng.randrange(0, 6))]
+        va = VA(pts)
+        s = io.StringIO()
+        w = TagWriter(s)
+        w.write_tag2(0, "X")
+        va.export_dxf(w, code)
+        w.write_tag2(1, "after")
+        text = s.getvalue()
+        ctx.count("O7 packed tags", ("va", size, code, tuple(pts)), bool(pts))
+        for how, tags in (("from_text", Tags.from_text(text)), ("ascii", Tags(tag_compiler(ascii_tags_loader(io.StringIO(text)))))):
+            try:
+                back = [tuple(v) for v in VA.from_tags(tags, code).values]
+                ok = len(back) == len(pts) and all(struct.pack(f"<{size}d", *a) == struct.pack(f"<{size}d", *b) for a, b in zip(pts, back))
+            except Exception as e:  # noqa
+                ok, back = False, repr(e)
+            if not ok:
+                ctx.fail(f"packed/vertexarray/{how}/{size}/{code}", f"VertexArray({pts!r:.120}) exported with code {code} and read by {how}: {back!r:.160}",
+                         {"op": "packed", "size": size, "code": code, "pts": [list(p) for p in pts]})
+        vals = [rng.randrange(-2**31, 2**31) for _ in range(rng.randrange(0, 6))]
+        tags = Tags.from_text("".join("%3d\n%d\n" % (c, v) for c, v in [(90, 7), (95, 8)] + [(93, v) for v in vals] + [(91, 1), (94, 2), (1071, 3)]))
+        ctx.count("O7 packed tags", ("tl", tuple(vals)), bool(vals))
+        if list(TagList.from_tags(tags, 93).values) != vals or list(TagArray.from_tags(tags, 93).values) != vals:
+            ctx.fail("packed/taglist", f"TagList/TagArray.from_tags lost values {vals!r:.120}", {"op": "packed-tl", "vals": vals})
 
 
 def replay(ctx, rep):
